@@ -169,6 +169,32 @@ class DevProp:
             "correspondence_obligations": 2,
         })
         self.extra_coverage(run_, cases, results, m)
+        if not run_.violations and not replaying and hasattr(self, "perturb"):
+            self.self_test(run_, cases, results)
+
+    def self_test(self, run_, cases, results, want=6):
+        """Sensitivity self-test of the pipeline (emitters + Coq monitor/view): a deliberately falsified observation of the
+        implementation must be flagged; otherwise the comparison is vacuous and the run is reported as broken."""
+        import copy
+        pc, pr = [], []
+        for c, r in zip(cases, results):
+            if r.get("panic") or r.get("hang"):
+                continue
+            r2 = self.perturb(c, copy.deepcopy(r))
+            if r2 is not None:
+                pc.append(c)
+                pr.append(r2)
+            if len(pc) >= want:
+                break
+        if not pc:
+            return
+        m = self.evaluate(pc, pr, self.pid.lower() + "self")
+        flagged = {it[0] for it in m["FAIL"]} | {it[0] for it in m["MIS"]}
+        run_.coverage["self_test_falsified_observations"] = len(pc)
+        run_.coverage["self_test_flagged"] = len(flagged)
+        if len(flagged) < len(pc):
+            raise CheckError("self-test: %d of %d falsified observations were not flagged by the %s monitor/view" % (
+                len(pc) - len(flagged), len(pc), self.pid))
 
     def extra_coverage(self, run_, cases, results, m):
         pass
